@@ -310,6 +310,9 @@ func c18Run(sc qScenario) (vs []ev.V) {
 					}
 					if a != ann.Code/100 {
 						vs = append(vs, ev.Vf("report:status-class", "%s: Status %s for %s, the last error was %s", where, g.Status, g.FinalRcpt, le))
+					} else if ann.Ench[0] == ann.Code/100 && (b != ann.Ench[1] || c != ann.Ench[2]) {
+						// "with their last status codes": the enhanced status code the target gave for the recipient
+						vs = append(vs, ev.Vf("report:status-code-not-the-last-one", "%s: Status %s for %s, the last error was %s", where, g.Status, g.FinalRcpt, le))
 					}
 				}
 				if strings.HasPrefix(g.Diag, "smtp;") {
